@@ -132,6 +132,43 @@ def gen_history(rng, npieces, stream):
     return pieces
 
 
+def gen_chain_history(rng, depth, churn):
+    """Directed family: a live procedure reaches, through `depth` procedures that have all been redefined
+    since (so their slots are shadowed), an old binding; then enough shadowing to make the recycler run, then
+    new definitions that take whatever slots were freed.  The old chain must keep its meaning."""
+    counter = [1000]
+
+    def fresh():
+        counter[0] += 1
+        return counter[0]
+
+    pieces = [["defc v0 %d" % fresh()], ["deff c0 v0:r"]]
+    for i in range(1, depth + 1):
+        refs = ["c%d:c" % (i - 1)]
+        if i >= 2 and rng.random() < 0.3:
+            refs.append("c%d:c" % rng.randrange(i - 1))        # extra edges: the graph is not always a path
+        pieces.append(["deff c%d %s" % (i, " ".join(refs))])
+    pieces.append(["deff top c%d:c" % depth])
+    pieces.append(["call top"])
+    order = list(range(depth + 1))
+    rng.shuffle(order)
+    for i in order:                                             # every link of the chain is now shadowed
+        pieces.append(["deff c%d v0:r" % i] if rng.random() < 0.7 else ["defc c%d %d" % (i, fresh())])
+    for _ in range(churn):
+        pieces.append(["defc junk %d" % fresh()])
+        if rng.random() < 0.05:
+            pieces.append(["call top"])
+    for i in range(2 * depth + 12):
+        pieces.append(["deff w%d v0:r" % i] if rng.random() < 0.5 else ["defc w%d %d" % (i, fresh())])
+    pieces.append(["call top", "read v0"])
+    for _ in range(churn // 2):
+        pieces.append(["defc junk %d" % fresh()])
+    for i in range(depth + 6):
+        pieces.append(["defc x%d %d" % (i, fresh())])
+    pieces.append(["call top"] + ["call w%d" % i for i in range(3) if False])
+    return pieces
+
+
 def in_k06a_class(pieces, idx):
     """A global defined in a unit together with a function reading it, assigned by a later unit."""
     same_unit = set()
@@ -322,6 +359,8 @@ def run(ctx):
     # main stream (outside every finding class) + finding streams
     nh, ln = (24, 60) if ctx.quick() else (300, 160)
     run_histories(ctx, [gen_history(rng, ln, "main") for _ in range(nh)], "main", stats, known)
+    chains = [gen_chain_history(rng, d, 130) for d in ((1, 2, 3, 4, 6) if ctx.quick() else (1, 2, 3, 4, 5, 6, 8, 12, 3, 4, 5))]
+    run_histories(ctx, chains, "chain", stats, known)
     for stream in ("k06a", "k06b"):
         run_histories(ctx, [gen_history(rng, ln, stream) for _ in range(max(4, nh // 6))], stream, stats, known)
     for kid in known:
